@@ -67,8 +67,8 @@ CLAIMED = {
          "Structural necessary conditions in both directions: Store.VerifyLeaf accepts only chains that satisfy every clause of the statement (types, name, [IssuedAt, ExpiresAt) for all three, parent provenance, store-only anchor, both signatures) and rejects only through the complement of such a clause; VerifyParent's pairing, link and signature arguments; MatchesName / Name.IsZero / authkeys.VerifyLeaf fail-closed; issuance produces what verification demands (validity window inside the parent's, clamped expiry, signed range, parent types).",
          "Trusts go/ssa and the field/role tables. Ed25519, SHA-3 and the encoding round-trip are outside (primitives; C18).",
          "DESIGN.md §3 C04"),
- "C08": ("who-may-write on the retransmission buffer classified by stored value (append / re-slice), ordered-event path analysis of processIntoBuffer (equal edge before delivery, exactly one window/ack advance per delivery), of sendFin (number taken before the single increment, under the lock) and of recvAck (stop/re-arm pairing of the retransmission ticker), dominance facts for push-back and bounds-tested pushes",
-         "Structural necessary conditions of in-order, complete delivery: unacknowledged frames are discarded nowhere but in the acknowledged-drop loop; bytes reach the stream buffer only for the fragment whose number equals the window start, which then advances exactly once; FIN is numbered right after the last data frame and nothing is queued after it; end-of-stream is marked only for the in-order FIN; the retransmission timer is re-armed on every non-failing path that stopped it.",
+ "C08": ("who-may-write on the retransmission buffer classified by stored value (append / re-slice), ordered-event path analysis of processIntoBuffer (equal edge before delivery, exactly one window/ack advance per delivery), of sendFin (number taken before the single increment, under the lock) and of recvAck (stop/re-arm pairing of the retransmission ticker), dominance facts for push-back and bounds-tested pushes, decision table of receiveInitiatePkt (REQ answered unless closed)",
+         "Structural necessary conditions of in-order, complete delivery (incl. a repeated REQ is answered in every state but closed, so the loss of one RESP is recoverable): unacknowledged frames are discarded nowhere but in the acknowledged-drop loop; bytes reach the stream buffer only for the fragment whose number equals the window start, which then advances exactly once; FIN is numbered right after the last data frame and nothing is queued after it; end-of-stream is marked only for the in-order FIN; the retransmission timer is re-armed on every non-failing path that stopped it.",
          "Liveness under outage/recovery, RTO arithmetic, duplicate-ack limits and sequence-number unwrapping are value- and schedule-dependent and are not decided.",
          "DESIGN.md §3 C08"),
  "C09": ("dominance facts (reliability predicate selects the table at every access; peer-initiated creation only on lookup miss + REQ + that frame's fields), ordered-event path analysis of the creators (lock held from id choice to insertion), send-site who-may and per-path counting for the accept queue, induction-shape check of pickTubeID (start at parity, step 2, bounded before narrowing), def-use freshness of frame payloads, sibling constants (id quarantine vs last-ack wait, as multiples of the RTT estimate)",
